@@ -196,6 +196,31 @@ mach2arch(unsigned mach, int elfclass)
 	}
 }
 
+/** Read a cached LOAD segment lookup hint.
+ * @param hint  Address of the hint.
+ * @returns     Most recently found segment, or @c NULL.
+ *
+ * The hints are read and updated by all clones under the shared read
+ * lock, so they must be read exactly once per lookup, atomically.
+ */
+static inline struct load_segment *
+get_last_segment(struct load_segment **hint)
+{
+	return __atomic_load_n(hint, __ATOMIC_RELAXED);
+}
+
+/** Update a cached LOAD segment lookup hint.
+ * @param hint  Address of the hint.
+ * @param pls   Segment that was found.
+ * @returns     The segment.
+ */
+static inline struct load_segment *
+set_last_segment(struct load_segment **hint, struct load_segment *pls)
+{
+	__atomic_store_n(hint, pls, __ATOMIC_RELAXED);
+	return pls;
+}
+
 /**  Find the LOAD segment that is closest to a physical address.
  * @param edp	 ELF dump private data.
  * @param paddr	 Requested physical address.
@@ -206,19 +231,21 @@ static struct load_segment *
 find_closest_mem_load(struct elfdump_priv *edp, kdump_paddr_t paddr,
 		      unsigned long dist)
 {
+	struct load_segment *last;
 	int i;
 
-	if (edp->use_last_load && edp->last_load &&
-	    paddr >= edp->last_load->phys &&
-	    paddr - edp->last_load->phys < edp->last_load->memsz)
-		return edp->last_load;
+	last = get_last_segment(&edp->last_load);
+	if (edp->use_last_load && last &&
+	    paddr >= last->phys &&
+	    paddr - last->phys < last->memsz)
+		return last;
 
 	for (i = 0; i < edp->num_load_sorted; i++) {
 		struct load_segment *pls = &edp->load_sorted[i];
 		if (pls->memsz && paddr <= pls->phys + pls->memsz - 1) {
 			if (paddr < pls->phys && pls->phys - paddr >= dist)
 				break;
-			return edp->last_load = pls;
+			return set_last_segment(&edp->last_load, pls);
 		}
 	}
 	return NULL;
@@ -234,19 +261,21 @@ static struct load_segment *
 find_closest_file_load(struct elfdump_priv *edp, kdump_paddr_t paddr,
 		       unsigned long dist)
 {
+	struct load_segment *last;
 	int i;
 
-	if (edp->use_last_load && edp->last_load &&
-	    paddr >= edp->last_load->phys &&
-	    paddr - edp->last_load->phys < edp->last_load->filesz)
-		return edp->last_load;
+	last = get_last_segment(&edp->last_load);
+	if (edp->use_last_load && last &&
+	    paddr >= last->phys &&
+	    paddr - last->phys < last->filesz)
+		return last;
 
 	for (i = 0; i < edp->num_load_sorted; i++) {
 		struct load_segment *pls = &edp->load_sorted[i];
 		if (pls->filesz && paddr <= pls->phys + pls->filesz - 1) {
 			if (paddr < pls->phys && pls->phys - paddr >= dist)
 				break;
-			return edp->last_load = pls;
+			return set_last_segment(&edp->last_load, pls);
 		}
 	}
 	return NULL;
@@ -262,19 +291,21 @@ static struct load_segment *
 find_closest_mem_vload(struct elfdump_priv *edp, kdump_vaddr_t vaddr,
 		       unsigned long dist)
 {
+	struct load_segment *last;
 	int i;
 
-	if (edp->use_last_vload && edp->last_vload &&
-	    vaddr >= edp->last_vload->virt &&
-	    vaddr - edp->last_vload->virt < edp->last_vload->memsz)
-		return edp->last_vload;
+	last = get_last_segment(&edp->last_vload);
+	if (edp->use_last_vload && last &&
+	    vaddr >= last->virt &&
+	    vaddr - last->virt < last->memsz)
+		return last;
 
 	for (i = 0; i < edp->num_load_vsorted; i++) {
 		struct load_segment *pls = &edp->load_vsorted[i];
 		if (pls->memsz && vaddr <= pls->virt + pls->memsz - 1) {
 			if (vaddr < pls->virt && pls->virt - vaddr >= dist)
 				break;
-			return edp->last_vload = pls;
+			return set_last_segment(&edp->last_vload, pls);
 		}
 	}
 	return NULL;
@@ -290,19 +321,21 @@ static struct load_segment *
 find_closest_file_vload(struct elfdump_priv *edp, kdump_vaddr_t vaddr,
 			unsigned long dist)
 {
+	struct load_segment *last;
 	int i;
 
-	if (edp->use_last_vload && edp->last_vload &&
-	    vaddr >= edp->last_vload->virt &&
-	    vaddr - edp->last_vload->virt < edp->last_vload->filesz)
-		return edp->last_vload;
+	last = get_last_segment(&edp->last_vload);
+	if (edp->use_last_vload && last &&
+	    vaddr >= last->virt &&
+	    vaddr - last->virt < last->filesz)
+		return last;
 
 	for (i = 0; i < edp->num_load_vsorted; i++) {
 		struct load_segment *pls = &edp->load_vsorted[i];
 		if (pls->filesz && vaddr <= pls->virt + pls->filesz - 1) {
 			if (vaddr < pls->virt && pls->virt - vaddr >= dist)
 				break;
-			return edp->last_vload = pls;
+			return set_last_segment(&edp->last_vload, pls);
 		}
 	}
 	return NULL;
